@@ -21,6 +21,8 @@ PUNCT = [('...', 'TELLIPSIS'), ('<<=', 'TSHLASSIGN'), ('>>=', 'TSHRASSIGN'), ('-
 
 
 def tokenize(src):
+    src = re.sub(r'/\*.*?\*/', ' ', src, flags=re.S)       # comments are white space
+    src = re.sub(r'//[^\n]*', ' ', src)
     out = []
     i, line = 0, 1
     while i < len(src):
